@@ -48,7 +48,8 @@ broadcast_var_set (SF_PRIVATE *psf, const SF_BROADCAST_INFO * info, size_t datas
 	if (info == NULL)
 		return SF_FALSE ;
 
-	if (bc_min_size (info) > datasize)
+	/* The size field can only be looked at if the caller's buffer is big enough to hold it. */
+	if (datasize < offsetof (SF_BROADCAST_INFO, coding_history) || bc_min_size (info) > datasize)
 	{	psf->error = SFE_BAD_BROADCAST_INFO_SIZE ;
 		return SF_FALSE ;
 		} ;
